@@ -64,6 +64,12 @@ func (e *Engine) info(fn *ssa.Function) *funcInfo {
 	if in, ok := e.intrinsic[fi.name]; ok {
 		fi.intr = in
 		fi.hasIn = true
+	} else if fn.Blocks == nil && len(fn.Name()) > 1 && fn.Name()[0] == 'v' && fn.Signature.Recv() == nil {
+		// in-package harness stubs: a body-less v<Name> is vstub.<Name>
+		if in, ok := e.intrinsic["vh/vstub."+fn.Name()[1:]]; ok {
+			fi.intr = in
+			fi.hasIn = true
+		}
 	}
 	e.finfo[fn] = fi
 	return fi
